@@ -5,3 +5,4 @@ import BlackIt.Model.Snap
 import BlackIt.Model.SearchSpace
 import BlackIt.Model.Dedup
 import BlackIt.Model.Bandit
+import BlackIt.Model.Halton
